@@ -392,6 +392,47 @@ func runC06(c *Ctx) {
 			c.Pred("paren-newline", "paren-newline-only-separator", "zone="+hxs(txt), same, res2, res, nt)
 		}
 	}
+	// 3a. comment lengths: comments of every length around the lexer's buffer steps, inside parentheses (where comment
+	//     text is carried over the line break), one or several before the next token; the records must be those of the
+	//     same text without comments.  The key names the accumulated comment length modulo the buffer step when a
+	//     later comment starts, so that a failure at one particular length is told apart from any other.
+	{
+		plain, pres := parseZone("a 1 IN TXT ( x \n y \n )\n", "example.org.", -1, nil)
+		one := func(lens []int) {
+			var sb strings.Builder
+			sb.WriteString("a 1 IN TXT ( x ")
+			acc, at511 := 0, false
+			for j, k := range lens {
+				if j > 0 && (acc+1)%512 == 0 {
+					at511 = true
+				}
+				if j > 0 {
+					acc++
+				}
+				sb.WriteString(";" + strings.Repeat("c", k) + "\n ")
+				acc += 1 + k
+			}
+			if (acc+1)%512 == 0 {
+				at511 = true
+			}
+			sb.WriteString("y ;d\n )\n")
+			recs, res := parseZone(sb.String(), "example.org.", -1, nil)
+			key := "comment-length:other"
+			if at511 {
+				key = "comment-length:acc511"
+			}
+			same := res == pres && strings.Join(recs, "\n") == strings.Join(plain, "\n")
+			c.Pred("comment-length", key, fmt.Sprint("comment lengths ", lens), same, res+" "+hdrsOf(recs), pres+" "+hdrsOf(plain), true)
+		}
+		for k := 0; k <= 1100; k++ {
+			one([]int{k})
+		}
+		for i := 0; i < c.Scale(300, 6000); i++ {
+			a := r.Intn(600)
+			one([]int{a, []int{508 - a, 509 - a, 510 - a, 1021 - a, r.Intn(600)}[r.Intn(5)] & 0x7ff})
+			one([]int{r.Intn(300), r.Intn(300), r.Intn(300)})
+		}
+	}
 	// 3b. $INCLUDE = inlining: any run of entries moved into an included file (no $ORIGIN inside it, explicit owners
 	//     at the seams) gives the same records; TTL state ($TTL and last explicit TTL) flows in and out
 	for i := 0; i < c.Scale(2500, 50000); i++ {
@@ -489,6 +530,8 @@ func runC06(c *Ctx) {
 		}
 		c.Pred("include", "include-scoping", main, res == "ok" && strings.Join(recs, "\n") == strings.Join(want, "\n"), res+" "+strings.Join(recs, " | "), strings.Join(want, " | "), true)
 	}
+	// the lexer model against zlexer.Next, token by token
+	lexStream(c, c.Scale(3000, 60000))
 }
 
 // substGenerate: independent expansion of $ / $$ / ${offset,width,base} / \$ for one iterator value
